@@ -27,11 +27,11 @@ def codes():
 
 
 def plan(tier, seed):
-    k = 16 if tier == "quick" else 600
+    k = 40 if tier == "quick" else 800
     shards = [{"kind": "lists", "seed": seed, "shard": i, "n": 120} for i in range(k)]
     shards += [{"kind": "currencies"}]
     shards += [{"kind": "reports", "seed": seed, "shard": i, "n": 100} for i in range(k // 2)]
-    shards += [{"kind": "cli", "seed": seed, "shard": i, "n": 10} for i in range(4 if tier == "quick" else 100)]
+    shards += [{"kind": "cli", "seed": seed, "shard": i, "n": 10} for i in range(8 if tier == "quick" else 120)]
     return shards
 
 
